@@ -24,6 +24,7 @@ type SpecCtx struct {
 	quiet  bool
 	failed bool
 	depth  int
+	locals bool // loop context: a name denotes the current value of the local variable, not the parameter's entry value
 }
 
 func (f *Frame) specCtx(h *Heap, env map[ssa.Value]Val) *SpecCtx {
@@ -168,6 +169,11 @@ func (c *SpecCtx) lookupIdent(name string) (Val, bool) {
 	if name == "now" {
 		return intV(c.heap.now), true
 	}
+	if c.locals {
+		if v, ok := c.lookupLocal(name); ok {
+			return v, true
+		}
+	}
 	if c.fn != nil {
 		for i, p := range c.fn.Params {
 			if p.Name() == name && i < len(c.params) {
@@ -189,6 +195,13 @@ func (c *SpecCtx) lookupIdent(name string) (Val, bool) {
 			}
 		}
 	}
+	if v, ok := c.lookupLocal(name); ok {
+		return v, true
+	}
+	return c.lookupGlobalName(name)
+}
+
+func (c *SpecCtx) lookupLocal(name string) (Val, bool) {
 	// locals of the frame's function
 	if c.f != nil && c.fn == c.f.fn {
 		for v, x := range c.env {
@@ -220,6 +233,10 @@ func (c *SpecCtx) lookupIdent(name string) (Val, bool) {
 			return found[0], true
 		}
 	}
+	return Val{}, false
+}
+
+func (c *SpecCtx) lookupGlobalName(name string) (Val, bool) {
 	// ghost globals
 	if g, ok := c.f.en.cs.GhostGlobals[name]; ok {
 		_, s := c.resolveType(g)
@@ -1073,8 +1090,8 @@ func (f *Frame) frameCheckComp(comp, reach string, pos token.Pos) {
 	f.check("modifies", not(reach), pos, "callee modifies all of "+comp+", not covered by the modifies clause")
 }
 
-// lvalueComp resolves the component of a modifies entry statically (no values needed).
-func (en *Engine) lvalueComp(e SExpr, fn *ssa.Function) (comp, sort string, ok bool) {
+// lvalueComps resolves the components of a modifies entry statically (no values needed).
+func (en *Engine) lvalueComps(e SExpr, fn *ssa.Function) ([]lvTarget, bool) {
 	vc := newVC(en.u, en.cs, "tmp", en.fset)
 	fr := &Frame{en: en, vc: vc, fn: fn, env: map[ssa.Value]Val{}, lets: map[string]Val{}, entry: &Heap{ver: map[string]string{}, now: "now0"}}
 	for _, p := range fn.Params {
@@ -1087,8 +1104,14 @@ func (en *Engine) lvalueComp(e SExpr, fn *ssa.Function) (comp, sort string, ok b
 		}
 	}
 	ts, ok := ctx.lvalueTargets(e)
-	if !ok || len(ts) != 1 {
-		return "", "", false
+	if !ok || len(ts) == 0 {
+		return nil, false
 	}
-	return ts[0].comp, ts[0].sort, true
+	for _, t := range ts {
+		if t.sort == "MapDom" || t.sort == "MapVal" {
+			// remember the one-level sort for the real VC
+			en.mapSortMemo[t.comp] = vc.mapSorts[t.comp]
+		}
+	}
+	return ts, true
 }
